@@ -19,6 +19,7 @@ import tempfile
 from concurrent.futures import ThreadPoolExecutor
 
 import clgen
+import compilers
 import gen
 import lib
 import translate_c05
@@ -215,6 +216,57 @@ def repeated_subexprs(src):
     return len([k for k in rep if not any(k != o and k in o for o in rep)])
 
 
+_cl22_cache = {}
+
+
+def same_shape(x, y):
+    """two CLVM trees of identical shape (they differ at most in atoms)"""
+    stack = [(x, y)]
+    while stack:
+        u, v = stack.pop()
+        if isinstance(u, tuple) != isinstance(v, tuple):
+            return False
+        if isinstance(u, tuple):
+            stack.append((u[0], v[0]))
+            stack.append((u[1], v[1]))
+    return True
+
+
+def cl22_leak_folded(case, detail):
+    """finding purity:cl22-gensym-leak reached through constant folding.  The cl22 frontend optimiser's evaluator
+    reads a generated name (`L7_$_123`) that it failed to substitute as DATA; when the operators around it are
+    folded at compile time the name disappears into a constant whose bytes depend on the counter, so the
+    `_$_<n>` pattern is no longer visible in the output.  The counter can influence a compilation only through
+    generated names, so the mechanism-following predicate is (all three):
+      * the two outputs have the same shape and differ only in atoms (constants computed from the name);
+      * compile_file with the frontend optimiser ON (file:010) gives different bytes under counter 0 and 1000;
+      * the SAME source with the frontend optimiser OFF (file:000) gives identical, name-free bytes under both —
+        i.e. the dependence is introduced by the cl22 frontend optimiser, which is what the finding says."""
+    pm = re.search(r"base ([0-9a-f]+) variant ([0-9a-f]+)", detail)
+    if not pm:
+        return False
+    try:
+        if not same_shape(gen.deser(bytes.fromhex(pm.group(1))), gen.deser(bytes.fromhex(pm.group(2)))):
+            return False
+    except Exception:  # noqa: BLE001
+        return False
+    key = case["source"]
+    if key not in _cl22_cache:
+        src = case["source"].replace("(include gen_inc.clinc)", clgen.INCLUDE_FILE.strip()[1:-1])
+        lines = [f"file:{bits} " + src.encode().hex() for bits in ("010", "000")]
+        o0 = [o.split() for o in lib.run_impl("compile", lines, args=("ctr=0",), timeout=120)]
+        o1 = [o.split() for o in lib.run_impl("compile", lines, args=("ctr=1000",), timeout=120)]
+        verdict = False
+        if all(len(o) >= 2 and o[0] == "C" for o in o0 + o1):
+            try:
+                clean = not any(GENSYM.match(a) for a in compilers.quoted_atoms(gen.unhex(o0[1][1])))
+            except Exception:  # noqa: BLE001
+                clean = False
+            verdict = clean and o0[1][1] == o1[1][1] and o0[0][1] != o1[0][1]
+        _cl22_cache[key] = verdict
+    return _cl22_cache[key]
+
+
 def reclassify(case, full, sig, detail):
     """narrow signature of the deinline finding: dialect stepping >= 23, the source has let / let* /
     assign forms (the only source of helpers without an inline preference), both programs compile,
@@ -223,6 +275,10 @@ def reclassify(case, full, sig, detail):
     if not sig.startswith("purity:bytes-") and not sig.startswith("purity:symbols-"):
         return sig, detail
     m = re.search(r"dialect=(\d+):", full)
+    if m and m.group(1) == "22" and sig.startswith("purity:bytes-") and cl22_leak_folded(case, detail):
+        return "purity:cl22-gensym-leak", ("a generated name was folded through operators into a constant by the cl22 frontend "
+                                           "optimiser (same shape, atoms differ; the frontend optimiser changes this program's "
+                                           "meaning; the build without it is name-free): " + detail)
     has_binding = bool(re.search(r"\((let\*?|assign)\s", case["source"]))
     commons = repeated_subexprs(case["source"])
     if not m or int(m.group(1)) < 23 or not (has_binding or commons >= 2):
